@@ -118,7 +118,15 @@ pub fn gen_number_string(r: &mut Rng) -> String {
             s
         }
         4 => format!("{}", r.int(-10000, 10000)),
-        5 => format!("{}e{}", r.int(-999, 999), r.int(-330, 310)),
+        5 => {
+            // exponents, one in four padded with leading zeros (their value counts, not their length)
+            let e = r.int(-330, 310);
+            if r.chance(0.25) {
+                format!("{}e{}{:0width$}", r.int(-999, 999), if e < 0 { "-" } else if r.chance(0.5) { "+" } else { "" }, e.abs(), width = r.int(2, 24) as usize)
+            } else {
+                format!("{}e{}", r.int(-999, 999), e)
+            }
+        }
         6 => format!("{}.{}E{}{}", r.below(10), r.below(100000), if r.chance(0.5) { "+" } else { "-" }, r.below(40)),
         7 => r.pick(&["90", "-90", "90.0", "-90.00000000000001", "90.00000000000001", "180", "-180.0", "12", "-12", "8848", "-420", "1050", "100", "57", "-90.0", "0", "-0", "-0.0", "0.0", "1e-320", "4.9e-324", "2.4703282292062327e-324", "2.4703282292062328e-324", "1.7976931348623157e308", "1.7976931348623159e308", "1e309", "1e400", "-1e400"]).to_string(),
         8 => {
@@ -128,7 +136,7 @@ pub fn gen_number_string(r: &mut Rng) -> String {
             // midpoint printed with enough digits to be exact needs big decimals; approximate with 30 digits
             format!("{:.30}", (a + b) / 2.)
         }
-        9 => r.pick(&["", " ", "+5", ".5", "5.", "-.5", "+.5e1", "1e", "1e+", "e5", ".", "-", "+", "1_0", "0x10", "١٢", "12 ", " 12", "1,5", "NaN", "nan", "-nan", "inf", "-inf", "+inf", "Infinity", "infinity", "-Infinity", "iNf", "1.2.3", "--1", "1e5.5", "0123", "00", "-01", "1e0005", "1E5", "1e-0"]).to_string(),
+        9 => r.pick(&["", " ", "+5", ".5", "5.", "-.5", "+.5e1", "1e", "1e+", "e5", ".", "-", "+", "1_0", "0x10", "١٢", "12 ", " 12", "1,5", "NaN", "nan", "-nan", "inf", "-inf", "+inf", "Infinity", "infinity", "-Infinity", "iNf", "1.2.3", "--1", "1e5.5", "0123", "00", "-01", "1e0005", "1E5", "1e-0", "1e00000001", "1e-00000001", "1E+0000000000000000001", "1e000000000", "5e-0000000000000324"]).to_string(),
         10 => {
             let mut s = format!("{:?}", r.range(-100., 100.));
             let i = r.below(s.len() as u64 + 1) as usize;
